@@ -6,6 +6,7 @@ Unknown or malformed ops answer `bad-op` (never defaulted).
 import MetricsVerif.Driver.C08
 import MetricsVerif.Driver.Prom
 import MetricsVerif.Driver.OnceCell
+import MetricsVerif.Driver.Recoverable
 import MetricsVerif.Driver.Layers
 import MetricsVerif.Driver.Tracing
 
@@ -32,6 +33,7 @@ def step (st : DState) (line : String) : DState × String :=
     match Tracing.handle st.tracing args with
     | some (p, o) => ({ st with tracing := p }, o)
     | none => (st, "bad-op")
+  | "recover" :: args => (st, (Recoverable.handle args).getD "bad-op")
   | "cell" :: args => (st, (OnceCell.handle args).getD "bad-op")
   | _ => (st, "bad-op")
 
